@@ -690,6 +690,7 @@ func c14Exec(bin string, run *c14Run, limit time.Duration) {
 	cmd.Stderr = &stderr
 	cmd.Stdout = nil
 	cmd.Env = append(os.Environ(), "GOTRACEBACK=all", "GOMEMLIMIT=2GiB")
+	cmd.Env = append(cmd.Env, c14ExtraEnv...)
 	t0 := time.Now()
 	err := cmd.Run()
 	run.elapsed = time.Since(t0)
@@ -1190,6 +1191,7 @@ func init() {
 
 		// ---- the boundary corpus: byte boundaries of references, counts, sizes x jobs, flags, sinks
 		c14BoundaryRuns(c, tmp, &runs)
+		c14OpsReachRuns(c, tmp, &runs)
 
 		// ---- run the commands in parallel child processes
 		nw := runtime.NumCPU()
@@ -1211,7 +1213,10 @@ func init() {
 					}
 					// fail fast: after three runs of a command have hung, the remaining runs of that command
 					// are skipped (each would wait for its time limit; the hang is already a failing input)
-					stream := run.args[0]
+					stream := run.kind
+					if len(run.args) > 0 {
+						stream = run.args[0]
+					}
 					hangMu.Lock()
 					skip := hangs[stream] >= 3
 					hangMu.Unlock()
@@ -1257,7 +1262,9 @@ func init() {
 			}
 			c.Nontrivial(faults + "/" + variant + "/" + run.class)
 			if run.class == "skipped" {
-				skipped[run.args[0]]++
+				if len(run.args) > 0 {
+					skipped[run.args[0]]++
+				}
 				continue
 			}
 			cls := "ok"
@@ -1282,6 +1289,8 @@ func init() {
 			c.Notes = append(c.Notes, fmt.Sprintf("fail fast: %d further runs of gedcom %s were skipped after three runs of it ended in a timeout (see the failing inputs)", n, stream))
 		}
 		c14ReportSites(c)
+		c14TotalityRuns(c)
+		c14ReportOps(c, c14CoverageRuns(c, tmp, runs))
 		c.Notes = append(c.Notes, fmt.Sprintf("%d files, %d command runs of the real cmd/gedcom binary (built from the tree under test), slowest %.2fs", len(masks), len(runs), slowest.Seconds()))
 		c.Untied = append(c.Untied, "page components of html/ that do not index file-derived lists, the q evaluator (C15) and the similarity arithmetic behind diff are covered by execution (oracle S) only, not by the model")
 	}
